@@ -316,7 +316,7 @@ DEBUG_JUSTIFIED = [
     # (owner function, regex on the condition shape, why the debug-only check cannot fire on a try_* path although the lemma library cannot show it)
     ('Bump::new_chunk_memory_details', r'Assert\(Overflow\(Add', 'chunk sizing adds OVERHEAD/FOOTER_SIZE to values bounded by the Layout invariant and by 2x the current chunk (A1, tabled in C19)'),
     ('Bump::new_chunk', r'Assert\(Overflow\(Add', 'allocated_bytes accumulates sizes of live blocks: bounded by the address space'),
-    ('Bump::alloc_layout_slow', r'mod\(load\[\*\(\(?(payload\(iter_any|galloc\()', 'the new chunk was requested with an alignment the request alignment divides (C04.O3, A4)'),
+    ('Bump::alloc_layout_slow', r'mod\(load\[\*\(.{0,60}?(iter_any|galloc\()', 'the new chunk was requested with an alignment the request alignment divides (C04.O3, A4)'),
     ('Bump::alloc_layout_slow', r'is_some\(phi', 'the retry on the fresh chunk succeeds because the chunk was sized for the request (C01.O5); for align > 16 this needs number theory outside the lemma set (stated as not decided)'),
     (r'Bump::(try_)?alloc_slice_\w+', r'eq\(&, &\)', 'Layout::for_value(result) == Layout::array::<T>(len): same element type and count (the owner is a regex: the worker may be inlined into its callers)'),
     ('Bump::try_alloc_with', r'Assert\((Null|Misaligned)PointerDerefer', 'rustc UB check on &mut *p for p returned by try_alloc_layout: non-null and aligned to align_of::<T>() (C04.O2, C01.O2)'),
